@@ -46,6 +46,7 @@ def registry_cases(rng, tier):
                                   (1, I32_MIN + 1)], "i32-min"))
         cases.append(seq_case(k, [(0, I32_MAX), (1, I32_MAX), (1, I32_MAX), (2, I32_MAX), (0, I32_MIN), (2, I32_MIN), (2, 0)], "i32-max"))
     cases.append(reg_case(1, [], "new"))
+    cases.append(Case("reg.present_fn_getter", xl(), "reg.present_fn_getter", {"kind": "getter"}))
     # Extensions::new(): builtin priorities (prime 16777216, 16777215, -100; package 128, 10, -1327)
     for _ in range(60 if tier == "quick" else 600):
         n = rng.randrange(1, 9)
@@ -375,6 +376,8 @@ def spec_ok(c, i, s):
 
 
 def signature(c, m):
+    if c.comp == "reg.present_fn_getter":
+        return "getter"
     if c.comp.startswith("reg."):
         return "steps=%d" % len(c.x[1][1][1]) if c.x[1][1][1] else None
     if c.comp == "std.bsearch":
